@@ -342,6 +342,9 @@ let run_checkers () =
   family [("O0", Ok (n_of_int 0)); ("O1", Ok (n_of_int 1)); ("Eu", Err (n_of_int 0))];
   family [("Ou", Ok (n_of_int 0)); ("Eu", Err (n_of_int 0))];
   family [("Oa", Ok (n_of_int 0)); ("Ob", Ok (n_of_int 1)); ("Ea", Err (n_of_int 0)); ("Eb", Err (n_of_int 1))];
+  (* payloads whose printed form and equality disagree: two distinct values that print alike; two equal values that print differently *)
+  family [("Oa", Ok (n_of_int 0)); ("Ob", Ok (n_of_int 1)); ("Ea", Err (n_of_int 0)); ("Eb", Err (n_of_int 1))];
+  family [("Oa", Ok (n_of_int 0)); ("Oa", Ok (n_of_int 0)); ("Ea", Err (n_of_int 0)); ("Ea", Err (n_of_int 0))];
   for a = 0 to 3 do
     for c = 0 to 3 do
       (* a non-Result output: EqualsChecker is equality, AlwaysConsistent is constant *)
